@@ -433,6 +433,41 @@ fn merge_tree(trace: &str) -> (u64, u64, usize, usize, usize) {
     (crate::rng::fnv(last.as_bytes()), crate::rng::fnv(a.as_bytes()), nkv, nun, gens)
 }
 
+/// the command line's own sorted build (`fst set|map <sorted file> <out> --sorted --force`), optionally over an existing longer file
+fn cli_sorted_build(bin: &Path, dir: &Path, m: &BTreeMap<Vec<u8>, u64>, mode: Mode, over_longer: bool) -> Result<Vec<u8>, String> {
+    let _ = std::fs::create_dir_all(dir);
+    let inp = dir.join("sorted-input.txt");
+    let out = dir.join("sorted-output.fst");
+    let mut text = Vec::new();
+    for (k, v) in m {
+        text.extend_from_slice(k);
+        if mode != Mode::Set {
+            text.extend_from_slice(format!(",{}", v).as_bytes());
+        }
+        text.push(b'\n');
+    }
+    std::fs::write(&inp, &text).map_err(|e| e.to_string())?;
+    let _ = std::fs::remove_file(&out);
+    if over_longer {
+        std::fs::write(&out, vec![0xA5u8; 200_000]).map_err(|e| e.to_string())?;
+    }
+    let o = Command::new(bin)
+        .arg(if mode == Mode::Set { "set" } else { "map" })
+        .arg(&inp)
+        .arg(&out)
+        .arg("--sorted")
+        .arg("--force")
+        .env_remove("FST_VERIF_SEED")
+        .env_remove("FST_VERIF_TRACE")
+        .stdin(Stdio::null())
+        .output()
+        .map_err(|e| format!("spawn failed: {}", e))?;
+    if !o.status.success() {
+        return Err(format!("`fst {} --sorted` exited with {:?}: {}", if mode == Mode::Set { "set" } else { "map" }, o.status.code(), String::from_utf8_lossy(&o.stderr).lines().last().unwrap_or("")));
+    }
+    std::fs::read(&out).map_err(|e| e.to_string())
+}
+
 fn sorted_build(m: &BTreeMap<Vec<u8>, u64>, mode: Mode) -> Vec<u8> {
     if mode == Mode::Set {
         let mut b = SetBuilder::memory();
@@ -625,6 +660,38 @@ pub fn run(ctx: &Ctx) -> i32 {
                         let dir = scratch.join(format!("t{}", t));
                         let o = run_fst(bin, &dir, &ins[*ii], cfg, &[], &[]);
                         judge(&ins[*ii], cfg, &o, &mut ev, &mut trees, &mut assigns);
+                        // inputs without repeated keys: byte-identical to the command line's OWN sorted build of the same data
+                        // (every 3rd such run; half of the sorted builds overwrite a longer existing file)
+                        if pi % 3 == 0 && o.status == Some(0) && !o.timed_out && !o.deadlocked {
+                            if let Some(bytes) = &o.output {
+                                let want = model(&ins[*ii], cfg.mode);
+                                let rows: usize = ins[*ii].files.iter().map(|f| f.len()).sum();
+                                if rows == want.len() && rows > 0 {
+                                    let over = pi % 2 == 0;
+                                    ev.eval(None);
+                                    ev.distinct_extra += 1;
+                                    match cli_sorted_build(bin, &dir, &want, cfg.mode, over) {
+                                        Ok(sb) => {
+                                            ev.count("runs:compared-with-the-cli-sorted-build");
+                                            if &sb != bytes {
+                                                ev.violate(
+                                                    "not-identical-to-sorted-build",
+                                                    format!("input without repeated keys: the unsorted build ({} bytes) differs from `fst {} --sorted --force` of the same data ({} bytes{})", bytes.len(), if cfg.mode == Mode::Set { "set" } else { "map" }, sb.len(), if over { ", written over an existing longer file" } else { "" }),
+                                                    J::obj(vec![("input", J::s(ins[*ii].name)), ("mode", J::s(format!("{:?}", cfg.mode))), ("sorted_build_over_existing_longer_file", J::Bool(over))]),
+                                                );
+                                            }
+                                        }
+                                        Err(e) => {
+                                            if e.starts_with("spawn failed") {
+                                                ev.count("runs:cli-sorted-build-not-started");
+                                            } else {
+                                                ev.violate("exit-status", format!("the sorted reference build failed: {}", e), J::obj(vec![("input", J::s(ins[*ii].name)), ("mode", J::s(format!("{:?}", cfg.mode)))]));
+                                            }
+                                        }
+                                    }
+                                }
+                            }
+                        }
                         if pi % 97 == 11 {
                             ev.sample(J::obj(vec![("input", J::s(ins[*ii].name)), ("mode", J::s(format!("{:?}", cfg.mode))), ("batch_size", J::U(cfg.batch as u64)), ("fd_limit", J::U(cfg.fd as u64)), ("threads", J::U(cfg.threads as u64)), ("trace_head", J::s(o.trace.lines().take(4).collect::<Vec<_>>().join(" | ")))]));
                         }
@@ -716,12 +783,12 @@ pub fn run(ctx: &Ctx) -> i32 {
         ev,
         Spec {
             level: "exploration",
-            rule: "one evaluation = one run of the real `fst set|map` binary (unsorted mode) as a subprocess with seeded 0-2 ms delays injected at channel send/receive and around batch construction (hook H4): exit status 0, output opens and verify()s, keys == distinct input keys, every value == sum/max/min over ALL rows of its key, and for inputs without repeated keys the output bytes equal a sorted library build; the H4 batch trace is parsed into the merge tree (which leaf batches met in which union, per generation) and the worker assignment, and an offline conservation checker runs over it and records anomalies as evidence without judging them (the leaf batches together hold between #distinct keys and #rows rows, every intermediate file produced once and consumed by exactly one union, exactly one unconsumed result); inputs: 17 shapes (CRLF line endings, input files without a final newline, the same path listed twice in a row, no repeats, repeats far apart, adjacent repeats incl. identical rows, three input files, five input files of which three are empty, one row, empty, five keys x 200 rows, all identical rows, sorted, reverse sorted, 3000 (thorough 10^5) rows with 30% repeats) x batch sizes {1,2,3,7,all} x fd-limit {2,3,15} x threads {1,2,5,16} x {set,sum,max,min}, a quarter of the runs overwriting an existing longer destination file (--force): a systematic core (every input x mode x batch size) plus random combinations; one fixed configuration is repeated under 24 (200) delay seeds to count how many distinct merge trees scheduling alone produces; thorough adds ThreadSanitizer-instrumented and valgrind-memcheck runs; non-trivial = every run; distinct_nontrivial counts runs (distinct parameter/seed combinations) plus distinct merge trees",
+            rule: "(for inputs without repeated keys every third run is also compared byte for byte with the command line's own `--sorted --force` build of the sorted data, half of them written over an existing longer file) one evaluation = one run of the real `fst set|map` binary (unsorted mode) as a subprocess with seeded 0-2 ms delays injected at channel send/receive and around batch construction (hook H4): exit status 0, output opens and verify()s, keys == distinct input keys, every value == sum/max/min over ALL rows of its key, and for inputs without repeated keys the output bytes equal a sorted library build; the H4 batch trace is parsed into the merge tree (which leaf batches met in which union, per generation) and the worker assignment, and an offline conservation checker runs over it and records anomalies as evidence without judging them (the leaf batches together hold between #distinct keys and #rows rows, every intermediate file produced once and consumed by exactly one union, exactly one unconsumed result); inputs: 17 shapes (CRLF line endings, input files without a final newline, the same path listed twice in a row, no repeats, repeats far apart, adjacent repeats incl. identical rows, three input files, five input files of which three are empty, one row, empty, five keys x 200 rows, all identical rows, sorted, reverse sorted, 3000 (thorough 10^5) rows with 30% repeats) x batch sizes {1,2,3,7,all} x fd-limit {2,3,15} x threads {1,2,5,16} x {set,sum,max,min}, a quarter of the runs overwriting an existing longer destination file (--force): a systematic core (every input x mode x batch size) plus random combinations; one fixed configuration is repeated under 24 (200) delay seeds to count how many distinct merge trees scheduling alone produces; thorough adds ThreadSanitizer-instrumented and valgrind-memcheck runs; non-trivial = every run; distinct_nontrivial counts runs (distinct parameter/seed combinations) plus distinct merge trees",
             assumptions: vec!["keys are [a-z0-9]{1,12} (no CSV quoting, no empty lines), values < 2^32 so sums cannot overflow; fd-limit 1 is excluded as in the statement".into(), "interleavings are sampled, not enumerated: the evidence reports how many distinct groupings were actually observed".into(), "a subprocess hitting the 120 s watchdog is inconclusive, never a violation; a deadlock is reported only on logical quiescence (every thread in state S and zero CPU ticks consumed over 8 consecutive one-second samples), not on elapsed time".into()],
             floors: {
                 // the merge-tree numbers come from hook H4 in fst-bin/src/merge.rs; a tree whose merge code no longer emits the trace
                 // still has its OUTPUT judged, so the trace floors only apply while the trace is alive
-                let mut fl: Vec<(&str, u64)> = vec![("runs", 200), ("runs:mode=Set", 20), ("runs:mode=Sum", 20), ("runs:mode=Max", 20), ("runs:mode=Min", 20), ("runs:no-repeat-inputs-compared-bytewise", 20), ("runs:overwriting-a-longer-existing-output", 20)];
+                let mut fl: Vec<(&str, u64)> = vec![("runs", 200), ("runs:mode=Set", 20), ("runs:mode=Sum", 20), ("runs:mode=Max", 20), ("runs:mode=Min", 20), ("runs:no-repeat-inputs-compared-bytewise", 20), ("runs:compared-with-the-cli-sorted-build", 10), ("runs:overwriting-a-longer-existing-output", 20)];
                 if trace_alive {
                     fl.extend_from_slice(&[("trace:union-batches", 100), ("max:union-generations", 2), ("distinct-merge-trees-observed", 20), ("trace:conservation-checked", 200)]);
                 }
